@@ -606,5 +606,197 @@ func genAssertFacts(repo string) (string, []string, interface{}) {
 	}
 	sb.WriteString("]\n\n")
 
-	return sb.String(), errs, map[string]interface{}{"assert_sites": len(sites), "unguarded": nUnguarded, "recover_funcs": len(recs), "tables": len(order)}
+	consts, ops, e3 := asCrosshiftFacts(repo)
+	errs = append(errs, e3...)
+	sb.WriteString("/-- integer constants declared at package level in sql/sql.go (name, value) -/\ndef sqlConsts : List (String × Int) := [\n")
+	for i, c := range consts {
+		sep := ","
+		if i == len(consts)-1 {
+			sep = ""
+		}
+		fmt.Fprintf(&sb, "  (%s, (%s : Int))%s\n", asLeanStr(c[0]), c[1], sep)
+	}
+	sb.WriteString("]\n\n")
+	sb.WriteString("/-- the statements of (*selectClause).addCrosshiftExpr that read or write cutoff, interval and limit, in source order -/\ndef crosshiftOps : List String := [")
+	for i, o := range ops {
+		if i > 0 {
+			sb.WriteString(", ")
+		}
+		sb.WriteString(asLeanStr(o))
+	}
+	sb.WriteString("]\n\n")
+
+	return sb.String(), errs, map[string]interface{}{"assert_sites": len(sites), "unguarded": nUnguarded, "recover_funcs": len(recs), "tables": len(order),
+		"sql_consts": len(consts), "crosshift_ops": ops}
+}
+
+// ---- numeric guards of CROSSHIFT (C16 update: sign / magnitude of client-controlled parameters)
+
+// asCrosshiftFacts extracts (1) the integer constants of sql/sql.go and (2) the order of the
+// statements of addCrosshiftExpr that decide how often its loop runs.  Each recognised
+// statement becomes one op name; a statement that touches cutoff / interval / limit in a way
+// the extractor does not recognise becomes "other:<source text>", which no expectation matches.
+//
+//	parseCutoff    cutoff, … := nodeToDuration(e.Exprs[1])
+//	zeroCutoff     if cutoff == 0 { return … }
+//	parseInterval  interval, … := nodeToDuration(e.Exprs[2])
+//	zeroInterval   if interval == 0 { return … }
+//	absInterval    if interval < 0 { interval = -1 * interval }
+//	limitIsCutoff  limit := cutoff
+//	absLimit       if cutoff < 0 { limit = cutoff * -1 }
+//	cap            if limit/interval > maxCrosshiftFields { return … }
+//	loop           for i := time.Duration(0); i < limit; i += interval { … }
+//	loopGuarded    … whose body contains  if interval >= limit-i { break }
+func asCrosshiftFacts(repo string) ([][2]string, []string, []string) {
+	var errs []string
+	path := filepath.Join(repo, "sql", "sql.go")
+	fset := token.NewFileSet()
+	f, err := parser.ParseFile(fset, path, nil, 0)
+	if err != nil {
+		return nil, nil, []string{fmt.Sprintf("asserts: %v", err)}
+	}
+	text := func(n ast.Node) string { return asOneLine(nodeText(fset, n)) }
+	var consts [][2]string
+	for _, d := range f.Decls {
+		gd, ok := d.(*ast.GenDecl)
+		if !ok || gd.Tok != token.CONST {
+			continue
+		}
+		for _, sp := range gd.Specs {
+			vs, ok := sp.(*ast.ValueSpec)
+			if !ok {
+				continue
+			}
+			for i, name := range vs.Names {
+				if i >= len(vs.Values) {
+					continue
+				}
+				if bl, ok := vs.Values[i].(*ast.BasicLit); ok && bl.Kind == token.INT {
+					if v, err := strconv.ParseInt(bl.Value, 0, 64); err == nil {
+						consts = append(consts, [2]string{name.Name, strconv.FormatInt(v, 10)})
+					}
+				}
+			}
+		}
+	}
+	var fn *ast.FuncDecl
+	for _, d := range f.Decls {
+		if fd, ok := d.(*ast.FuncDecl); ok && fd.Name.Name == "addCrosshiftExpr" {
+			fn = fd
+		}
+	}
+	if fn == nil || fn.Body == nil {
+		return consts, nil, append(errs, "asserts: function addCrosshiftExpr not found in sql/sql.go")
+	}
+	watched := map[string]bool{"cutoff": true, "interval": true, "limit": true}
+	mentions := func(n ast.Node) bool {
+		found := false
+		ast.Inspect(n, func(x ast.Node) bool {
+			if id, ok := x.(*ast.Ident); ok && watched[id.Name] {
+				found = true
+			}
+			return !found
+		})
+		return found
+	}
+	returns := func(b *ast.BlockStmt) bool { return b != nil && asLeaves(b.List) }
+	negOf := func(e ast.Expr, name string) bool { // -1 * x, x * -1, -x
+		t := text(e)
+		return t == "-1 * "+name || t == name+" * -1" || t == "-"+name
+	}
+	var ops []string
+	for _, st := range fn.Body.List {
+		switch s := st.(type) {
+		case *ast.AssignStmt:
+			if len(s.Lhs) >= 1 && len(s.Rhs) == 1 {
+				lhs := text(s.Lhs[0])
+				rhs := text(s.Rhs[0])
+				switch {
+				case lhs == "cutoff" && s.Tok == token.DEFINE && strings.HasPrefix(rhs, "nodeToDuration("):
+					ops = append(ops, "parseCutoff")
+					continue
+				case lhs == "interval" && s.Tok == token.DEFINE && strings.HasPrefix(rhs, "nodeToDuration("):
+					ops = append(ops, "parseInterval")
+					continue
+				case lhs == "limit" && s.Tok == token.DEFINE && rhs == "cutoff" && len(s.Lhs) == 1:
+					ops = append(ops, "limitIsCutoff")
+					continue
+				}
+			}
+		case *ast.IfStmt:
+			if s.Init == nil && s.Else == nil {
+				cond := text(s.Cond)
+				switch {
+				case cond == "cutoff == 0" && returns(s.Body):
+					ops = append(ops, "zeroCutoff")
+					continue
+				case cond == "interval == 0" && returns(s.Body):
+					ops = append(ops, "zeroInterval")
+					continue
+				case cond == "limit/interval > maxCrosshiftFields" && returns(s.Body):
+					ops = append(ops, "cap")
+					continue
+				case cond == "interval < 0" && len(s.Body.List) == 1:
+					if as, ok := s.Body.List[0].(*ast.AssignStmt); ok && as.Tok == token.ASSIGN && len(as.Lhs) == 1 && len(as.Rhs) == 1 &&
+						text(as.Lhs[0]) == "interval" && negOf(as.Rhs[0], "interval") {
+						ops = append(ops, "absInterval")
+						continue
+					}
+				case cond == "cutoff < 0" && len(s.Body.List) == 1:
+					if as, ok := s.Body.List[0].(*ast.AssignStmt); ok && as.Tok == token.ASSIGN && len(as.Lhs) == 1 && len(as.Rhs) == 1 &&
+						text(as.Lhs[0]) == "limit" && negOf(as.Rhs[0], "cutoff") {
+						ops = append(ops, "absLimit")
+						continue
+					}
+				}
+			}
+		case *ast.ForStmt:
+			if s.Init != nil && s.Cond != nil && s.Post != nil &&
+				text(s.Init) == "i := time.Duration(0)" && text(s.Cond) == "i < limit" && text(s.Post) == "i += interval" {
+				guarded := false
+				writes := false
+				for _, bs := range s.Body.List {
+					if is, ok := bs.(*ast.IfStmt); ok && is.Init == nil && is.Else == nil && text(is.Cond) == "interval >= limit-i" && len(is.Body.List) == 1 {
+						if br, ok := is.Body.List[0].(*ast.BranchStmt); ok && br.Tok == token.BREAK && br.Label == nil {
+							guarded = true
+							continue
+						}
+					}
+					// nothing else in the body may assign to the loop's bounds or counter
+					ast.Inspect(bs, func(x ast.Node) bool {
+						switch a := x.(type) {
+						case *ast.AssignStmt:
+							for _, l := range a.Lhs {
+								if t := text(l); t == "i" || watched[t] {
+									writes = true
+								}
+							}
+						case *ast.IncDecStmt:
+							if t := text(a.X); t == "i" || watched[t] {
+								writes = true
+							}
+						}
+						return true
+					})
+				}
+				switch {
+				case writes:
+					ops = append(ops, "other:loop body writes to its bounds")
+				case guarded:
+					ops = append(ops, "loopGuarded")
+				default:
+					ops = append(ops, "loop")
+				}
+				continue
+			}
+		}
+		if mentions(st) {
+			t := text(st)
+			if len(t) > 80 {
+				t = t[:80]
+			}
+			ops = append(ops, "other:"+t)
+		}
+	}
+	return consts, ops, errs
 }
